@@ -33,7 +33,7 @@ def g2(v):
 
 def build(cell):
     """returns (thermodynamics-like object, label)"""
-    if cell["eos"] in ("bag", "template", "twostep"):
+    if cell["eos"] in ("bag", "template", "twostep", "poly"):
         return eos.make_eos(cell["eos"], cell["Tn"], **cell["par"])
     raise ValueError(cell["eos"])
 
@@ -282,6 +282,13 @@ def eos_cells(tier, seed, template_only=False, nv=12, window=False):
         for tnr in ([0.8, 0.9] if tier == "quick" else [0.7, 0.8, 0.9, 0.95]):
             for Tc in ([1.0, 50.0] if tier == "quick" else [1e-2, 1.0, 50.0]):
                 cells.append(dict(eos="twostep", Tn=tnr * Tc, par=dict(Tc=Tc), tag=f"tn{tnr}_Tc{Tc}", nv=nv))
+        # sound speeds that depend markedly on temperature in both phases (cs2 0.26..0.30 ahead of the wall): conditions that
+        # coincide for a constant sound speed (energy- vs momentum-flux crossing of the shock front, Jouguet velocity of the
+        # fitted template vs of the equation of state) come apart here
+        for (psi, s2, b2, eps, tnr) in ([(0.7, -0.4, -0.45, 0.35, 0.8)] if tier == "quick" else [(0.7, -0.4, -0.45, 0.35, 0.8), (0.8, -0.5, -0.5, 0.2, 0.85), (0.7, -0.4, -0.45, 0.35, 0.9)]):
+            for Tc in ([1.0] if tier == "quick" else [1e-2, 1.0, 100.0]):
+                cells.append(dict(eos="poly", Tn=tnr * Tc, par=dict(psi=psi, s2=s2, b2=b2, eps=eps, Tc=Tc, scale=float(10 ** rng.uniform(-2, 2))),
+                                  tag=f"psi{psi}_s{s2}_b{b2}_eps{eps}_tn{tnr}_Tc{Tc}", nv=nv, belowJouguet=[0.01, 0.03]))
         # very small numbers in the user's units (an MeV-scale transition in GeV): energy densities ~1e-11, next to the
         # solver's default absolute tolerance 1e-10
         for Tc in ([1e-3] if tier == "quick" else [1e-3, 3e-3]):
